@@ -76,7 +76,14 @@ def rand_case(rng, force=None):
         orient = dict(kind="crystal", theta=rng.choice([0.0, math.pi / 2, rng.uniform(0, math.pi), rng.uniform(-math.pi, 0), rng.uniform(math.pi, 2 * math.pi)]),
                       phi=rng.choice([0.0, rng.uniform(0, 2 * math.pi), rng.uniform(-2 * math.pi, 0)]))
     flags = rng.choice(["CS_ISO", "CS_ORIENT", "CS", "CS", "STATIC", "MAS", "Q_STATIC", "Q_MAS", "CS|Q_1_ORIENT", "CS|Q_2_SHIFT", "CS_ISO|Q_2_STATIC", "CS|Q_2_ORIENT_MAS"])
-    return dict(el=el, iso=iso, I=I, n=n, ms=ms, efg=efg, others=others, orient=orient, flags=flags, bins=rng.choice([31, 64, 100, 151, 200]),
+    OTHER = {"H": [1, 2], "Li": [6, 7], "N": [14, 15], "B": [10, 11], "Cl": [35, 37]}
+    other_ref = None
+    if el in OTHER and rng.random() < 0.5:
+        cur = iso if iso is not None else {"H": 1, "Li": 7, "N": 14}.get(el)
+        cand = [x for x in OTHER[el] if x != cur]
+        if cand:
+            other_ref = dict(iso=rng.choice(cand), value=round(rng.uniform(-150, 150), 2), before=rng.random() < 0.5)
+    return dict(el=el, iso=iso, I=I, n=n, ms=ms, efg=efg, others=others, orient=orient, flags=flags, other_ref=other_ref, bins=rng.choice([31, 64, 100, 151, 200]),
                 broad_rel=rng.choice([None, None, 0.01, 0.03]), ref=rng.choice([None, None, 0.0, round(rng.uniform(-200, 200), 2)]), use_reference=rng.choice([None, None, True, False]),
                 units=rng.choice(["ppm", "ppm", "MHz"]), field=rng.choice([(400.0, "MHz"), (9.4, "T"), (rng.uniform(100, 900), "MHz"), (rng.uniform(2, 23), "T")]),
                 use_central=rng.random() < 0.3, window=rng.choice(["all", "all", "some"]), axis_aligned=aligned)
@@ -114,8 +121,14 @@ def make(case):
     else:
         c.set_single_crystal(o["theta"], o["phi"])
     name = ("%d" % case["iso"] if case["iso"] is not None else "") + case["el"]
+    # references of OTHER isotopes of the same element, set before and / or after the one under test (a call history on one calculator)
+    oth = case.get("other_ref")
+    if oth and oth.get("before"):
+        c.set_reference(oth["value"], "%d%s" % (oth["iso"], case["el"]))
     if case["ref"] is not None:
         c.set_reference(case["ref"], name)
+    if oth and not oth.get("before"):
+        c.set_reference(oth["value"], "%d%s" % (oth["iso"], case["el"]))
     return c, name
 
 
@@ -248,7 +261,9 @@ def check_case(case, collect=None):
         # np.convolve(mode="same") with an even number of bins is off-centre by half a bin; on the downward-running axis of a negative-gamma nucleus the
         # half bin goes the other way, so the two spectra may differ by a one-bin shift (sub-bin effect, not claimed)
         s2a = np.array(s2)
-        same_units = any(np.allclose(s2a[2 + d:bins - 2 + d], s[2:bins - 2], atol=1e-2 * max(1.0, s.max())) for d in (-1, 1))
+        def _shape(x):
+            return x / x.sum() if x.sum() > 0 else x
+        same_units = any(np.allclose(_shape(s2a[3 + d:bins - 3 + d]), _shape(s[3:bins - 3]), atol=2e-2 * float(_shape(s[3:bins - 3]).max())) for d in (-1, 1))
     if not same_units:
         probs.append("the %s spectrum differs from the %s spectrum of the same window (max diff %s)" % (other, case["units"], np.abs(np.array(s2) - s).max()))
     elif not np.allclose(np.array(f2) / k2, f / k, atol=1e-9 * max(1.0, np.abs(f / k).max())):
@@ -317,21 +332,9 @@ def model_expr(case, c, lo, hi):
     return "flat_map encq (powder_spectrum %s [%s] %s [%s])" % (q(case["n"]), "; ".join(items), q(edges[0]), "; ".join(q(e) for e in edges[1:]))
 
 
-def run(ctx):
+def regen(ctx):
     import nmr_flags
     from soprano.calculate.nmr.nmr import NMRFlags
-    rng = ctx.rng
-    quick = ctx.tier == "quick"
-    ctx.rule = ("samples of 1-6 observed nuclei (+ other elements) with generic / axial / isotropic shielding (axis-aligned or rotated, optional antisymmetric part) "
-                "and EFG tensors x {1H, 2H, 14N, 23Na, 7Li, 17O, 27Al, 29Si, 13C} x 12 flag combinations x {single crystal (poles, equator, random), powder N in "
-                "{2,3,4,5,8,12,16,32} x 3 modes} x bins x {no broadening, 1%, 3% of the window} x reference {unset, 0, random} x use_reference {None, True, False} "
-                "x {ppm, MHz} x field given in MHz or T x use_central x window {all peaks, upper part}; plus a stream of axially symmetric tensors along a Cartesian axis (exact ties between vertex frequencies)")
-    ctx.trusted += ["py2v nmr_flags translator; hand model coq/model/SpecBody.v on top of TentBody.v (shared with C13)",
-                    "np.isclose(sum, 0) is modelled as sum = 0; float bin edges x_k +- dx/2 are modelled as the contiguous rationals x_0 - dx/2 + k dx; the "
-                    "Gaussian broadening paths (np.exp, np.convolve) and the second-order quadrupolar formulas are not modelled: they are judged by the oracles "
-                    "(sum, sign, refusal, independence of units) only",
-                    "numpy eigvalsh is the oracle for principal values"]
-    # (A1) regenerated flags
     try:
         txt, meta = nmr_flags.gen(fw.REPO)
         fw.write_if_changed(os.path.join(fw.COQ, "gen", "NmrFlags.v"), txt)
@@ -340,6 +343,23 @@ def run(ctx):
                    "translator", same, "" if same else "generated table %s differs from NMRFlags %s" % (meta["flags"], NMRFlags._asdict()))
     except Exception as e:
         ctx.oblige("py2v nmr_flags: flag logic inside the translated grammar", "translator", False, repr(e))
+
+
+def run(ctx):
+    from soprano.calculate.nmr.nmr import NMRFlags
+    rng = ctx.rng
+    quick = ctx.tier == "quick"
+    ctx.rule = ("samples of 1-6 observed nuclei (+ other elements) with generic / axial / isotropic shielding (axis-aligned or rotated, optional antisymmetric part) "
+                "and EFG tensors x {1H, 2H, 14N, 23Na, 7Li, 17O, 27Al, 29Si, 13C} x 12 flag combinations x {single crystal (poles, equator, random), powder N in "
+                "{2,3,4,5,8,12,16,32} x 3 modes} x bins x {no broadening, 1%, 3% of the window} x reference {unset, 0, random} x a reference for another isotope of the same element set before / after x use_reference {None, True, False} "
+                "x {ppm, MHz} x field given in MHz or T x use_central x window {all peaks, upper part}; plus a stream of axially symmetric tensors along a Cartesian axis (exact ties between vertex frequencies)")
+    ctx.trusted += ["py2v nmr_flags translator; hand model coq/model/SpecBody.v on top of TentBody.v (shared with C13)",
+                    "np.isclose(sum, 0) is modelled as sum = 0; float bin edges x_k +- dx/2 are modelled as the contiguous rationals x_0 - dx/2 + k dx; the "
+                    "Gaussian broadening paths (np.exp, np.convolve) and the second-order quadrupolar formulas are not modelled: they are judged by the oracles "
+                    "(sum, sign, refusal, independence of units) only",
+                    "numpy eigvalsh is the oracle for principal values"]
+    # (A1) regenerated flags
+    regen(ctx)
     ctx.build_props()
     ok = ctx.build_models(["model/SpecQ.vo"])
     # corpus: witnesses of repaired / known defects
